@@ -216,6 +216,8 @@ func runC13(c *run.Ctx) {
 	}
 	mutants += c13Builders(c)
 	mutants += c13BuiltNames(c)
+	mutants += c13LocationMatrix(c)
+	mutants += c13SecondSchemaDefinition(c)
 	mutants += c13LateInvalidated(c)
 	c.MinNontriv = (n + mutants) / 3
 	c.Set("mutants_loaded", mutants)
